@@ -13,6 +13,7 @@ import (
 type Plan struct {
 	Pool      *PoolPlan    `json:"pool,omitempty"`     // atomic paths through the state graph of PoolAtomic.cfg
 	Pool2     *PoolPlan    `json:"pool2,omitempty"`    // ... of PoolAtomicWake.cfg (two callers: wake-ups, cancellation)
+	Pool3     *PoolPlan    `json:"pool3,omitempty"`    // ... of PoolAtomicCleanup.cfg (cleanup threshold 1: cleanup with pending queue entries)
 	Witness   []Scenario   `json:"witness,omitempty"`  // atomic counterexamples of model variants WITHOUT a fix
 	Fine      []Scenario   `json:"fine,omitempty"`     // fine-grained counterexamples (deadlock) of such variants
 	Manager   *ManagerPlan `json:"manager,omitempty"`  // paths through the state graph of PeerManager
@@ -42,6 +43,9 @@ func TestDriver(t *testing.T) {
 	}
 	if plan.Pool2 != nil {
 		runPoolPaths(rep, plan.Pool2)
+	}
+	if plan.Pool3 != nil {
+		runPoolPaths(rep, plan.Pool3)
 	}
 	for _, sc := range plan.Witness {
 		runWitness(rep, sc)
